@@ -78,8 +78,11 @@ CHECKS["C15"] = dict(
     text="Lean theorems over the pool model: each traits operation changes the counter by exactly the traits-level size iff it succeeded "
          "(never with leak checking off); after any history the counter is the initial value plus the signed sum (induction); destruction "
          "reports iff non-zero with the exact amount; balanced histories are silent; a move carries the count. Tied by correspondence of the "
-         "counter after every operation and of the recorded handler calls.",
-    note="partial: process-wide at-exit report of low-level allocators not covered yet.",
+         "counter after every operation and of the recorded handler calls; the process-wide net of heap/malloc/new_allocator is checked "
+         "on the real code in child processes (exactly one report after main returns with the exact net incl. fence bytes, none when "
+         "balanced or with leak checking off).",
+    note="partial: the once-at-exit part (nifty counter across translation units, static destruction order) is runtime behaviour checked "
+         "by the child-process scenarios only.",
     technique="Lean 4 proof (induction over histories) + correspondence")
 CHECKS["C01"] = dict(
     text="Lean theorems: for memory_pool over ALL THREE free lists - the unordered list (release builds), the address-ordered xor list "
